@@ -401,3 +401,100 @@ func runFingerprint(r *hk.Run, e *env) {
 	p2.EnableInsecureSkipVerify()
 	check("p := C().SetTLSFingerprintChrome(); k := p.Clone(); p.EnableInsecureSkipVerify(); k", k2, false)
 }
+
+// handshake order: SetTLSFingerprint* / SetTLSHandshake(custom) in any order on up to three clients with Clone
+// in between; after every step every client's transport must handshake with what THAT client was last given
+// (Clone = what the original has). The kind is observed by calling the installed function on a dead connection:
+// a caller's function announces its identity, anything else that is installed is a fingerprint handshake.
+func runHandshakeOrder(r *hk.Run, e *env, rng *hk.Rand, n int) {
+	for i := 0; i < n; i++ {
+		mark := 0
+		custom := func(id int) func(ctx context.Context, addr string, plainConn net.Conn) (net.Conn, *tls.ConnectionState, error) {
+			return func(context.Context, string, net.Conn) (net.Conn, *tls.ConnectionState, error) {
+				mark = id
+				return nil, nil, fmt.Errorf("c19 custom handshake %d", id)
+			}
+		}
+		observe := func(c *req.Client) [2]int {
+			fn := c.GetTransport().TLSHandshakeContext
+			if fn == nil {
+				return [2]int{0, 0}
+			}
+			a, b := net.Pipe()
+			a.Close()
+			b.Close()
+			mark = 0
+			ctx, cancel := context.WithTimeout(context.Background(), 5*time.Second)
+			fn(ctx, "c19.test:443", a)
+			cancel()
+			if mark != 0 {
+				return [2]int{1, mark}
+			}
+			return [2]int{2, 0}
+		}
+		clients := map[int]*req.Client{0: req.C()}
+		ref := map[int][2]int{0: {0, 0}}
+		var prog, coq []string
+		failed := false
+		steps := rng.Range(3, 8)
+		for s := 0; s < steps && !failed; s++ {
+			ids := make([]int, 0, len(clients))
+			for id := 0; id < 3; id++ {
+				if clients[id] != nil {
+					ids = append(ids, id)
+				}
+			}
+			id := hk.Pick(rng, ids)
+			switch k := rng.Intn(10); {
+			case k < 4:
+				fp := rng.Range(1, 3)
+				switch fp {
+				case 1:
+					clients[id].SetTLSFingerprintChrome()
+				case 2:
+					clients[id].SetTLSFingerprintFirefox()
+				default:
+					clients[id].SetTLSFingerprintSafari()
+				}
+				ref[id] = [2]int{2, 0}
+				prog = append(prog, fmt.Sprintf("c%d.SetTLSFingerprint(%d)", id, fp))
+				coq = append(coq, fmt.Sprintf("HsSet %d (HSetFinger %d)", id, fp))
+			case k < 8:
+				v := rng.Range(1, 9)
+				if rng.Chance(50) {
+					clients[id].SetTLSHandshake(custom(v))
+				} else {
+					clients[id].GetTransport().SetTLSHandshake(custom(v))
+				}
+				ref[id] = [2]int{1, v}
+				prog = append(prog, fmt.Sprintf("c%d.SetTLSHandshake(fn %d)", id, v))
+				coq = append(coq, fmt.Sprintf("HsSet %d (HSetCustom %d)", id, v))
+			default:
+				if len(clients) < 3 {
+					dst := len(clients)
+					clients[dst] = clients[id].Clone()
+					ref[dst] = ref[id]
+					prog = append(prog, fmt.Sprintf("c%d := c%d.Clone()", dst, id))
+					coq = append(coq, fmt.Sprintf("HsClone %d %d", id, dst))
+					r.Count("handshake.clones")
+				}
+			}
+			for cid := 0; cid < 3 && !failed; cid++ {
+				if clients[cid] == nil {
+					continue
+				}
+				got := observe(clients[cid])
+				coq = append(coq, fmt.Sprintf("HsObs %d %d %d", cid, got[0], got[1]))
+				if got != ref[cid] {
+					failed = true
+					r.Fail(hk.Failure{Sig: fmt.Sprintf("handshake-order:client-handshakes-with-%d-instead-of-%d", got[0], ref[cid][0]),
+						What:  fmt.Sprintf("client %d: the installed TLS handshake (kind, identity) is not what this client was last given (0 none, 1 caller's function, 2 fingerprint)", cid),
+						Input: map[string]interface{}{"program": append([]string(nil), prog...)}, Got: got, Want: ref[cid]})
+				}
+			}
+		}
+		r.Count("handshake.programs")
+		r.Add(hk.Case{Coq: "(CHandshake [" + strings.Join(coq, "; ") + "])",
+			Desc: map[string]interface{}{"kind": "handshake-order", "program": prog}}, "handshake:"+strings.Join(prog, ";"), len(clients) > 1)
+	}
+}
